@@ -904,6 +904,9 @@ pub enum ParamTemplate {
     /// a parametric rule whose only production is one parametric reference that *changes* the
     /// parameter (`more::_ : item::incr(_)`), referenced recursively: `a;a;...a.` with at most k+1 items
     AliasChain { k: u8, op: u8 },
+    /// recursive parametric reference inside `depth` nested groups (`p::_ : "a" ("c" ("d" p::incr(_)))`):
+    /// the groups become single-rule symbols that the optimiser inlines into one another
+    Grouped { k: u8, depth: u8 },
 }
 
 const LETTERS: &[&str] = &["a", "b", "c", "d", "e", "f"];
@@ -1033,6 +1036,23 @@ impl ParamTemplate {
                 pb.alt(true, "q", 2, "a", Some((1, "p", PExpr::SelfRef)), cond);
                 pb.alt(false, "q", 2, "b", None, Cond::True);
             }
+            ParamTemplate::Grouped { k, depth } => {
+                let cond = Cond::Cmp(Cmp::Lt, 0, 8, *k as u64);
+                let pe = PExpr::Incr(0, 8);
+                let mut txt = "\"a\"".to_string();
+                let mut rhs = lit("a");
+                for d in 0..*depth {
+                    let l = LETTERS[2 + d as usize];
+                    txt.push_str(&format!(" ({:?}", l));
+                    rhs.extend(lit(l));
+                }
+                txt.push_str(&format!(" p::{}", pe.lark()));
+                txt.push_str(&")".repeat(*depth as usize));
+                rhs.push(BSym::Nt(1, pe));
+                pb.lark.push_str(&format!("p::_ : {} %if {}\n", txt, cond.lark()));
+                pb.prods.push(Prod { lhs: 1, rhs, cond });
+                pb.alt(false, "p", 1, "b", None, Cond::True);
+            }
             ParamTemplate::Toggle(n) => {
                 // letter k toggles bit k: set when clear, clear when set; stop when bit 0 set or all zero
                 for k in 0..*n {
@@ -1079,6 +1099,7 @@ pub fn param_template() -> impl Strategy<Value = ParamTemplate> {
         (1u8..=5).prop_map(ParamTemplate::UpDown),
         (2u8..=3).prop_map(ParamTemplate::Toggle),
         (1u8..=5, 0u8..3).prop_map(|(k, op)| ParamTemplate::AliasChain { k, op }),
+        (1u8..=4, 1u8..=3).prop_map(|(k, depth)| ParamTemplate::Grouped { k, depth }),
     ]
 }
 
